@@ -17,7 +17,7 @@ def run(tier):
     return run_graphs(
         'C13', tier, FACTORY, configs(tier), keep={'meta'}, require_bound_hit=False,
         single_outcome_ok=('setitem', 'update', 'updatekw', 'update2', 'update3', 'update_empty', 'popdef', 'popsame',
-                           'reopen', 'bad'),
+                           'reopen', 'bad', 'updboth'),
         rule=('state = files + live handle dump; two families of graphs: keys {a,b} with 14 value kinds (int, float, NaN, '
               'inf, non-ASCII/non-BMP text, control characters, bool, None, nested list, nested dict, NumPy int/float/array, '
               'bytes) and keys {a,b,c} with 3 values; operations: m[k]=v, update(dict), update(**kw), two- and three-key '
